@@ -9,9 +9,9 @@ import vlib  # noqa: E402
 
 
 def families():
-    import fam_ring, fam_inbox, fam_actor, fam_wire, fam_events
+    import fam_ring, fam_inbox, fam_actor, fam_wire, fam_events, fam_reqresp
     table = {}
-    for mod in (fam_ring, fam_inbox, fam_actor, fam_wire, fam_events):
+    for mod in (fam_ring, fam_inbox, fam_actor, fam_wire, fam_events, fam_reqresp):
         table.update(mod.CHECKS)
     return table
 
